@@ -192,7 +192,7 @@ lane_subsets = st.one_of(
 )
 
 
-def render_note_items(tick: int, mask: int, lens, tap, forced, lane_order=None) -> list[list]:
+def render_note_items(tick: int, mask: int, lens, tap, forced, lane_order=None, flag_pos=None) -> list[list]:
     """Moonscraper order: lane lines ascending (or ``lane_order``), then forced (5), then tap (6).
     ``lens`` : list of 5 lengths (used for active lanes) or int for open.  ``tap``/``forced`` are
     None or the (ignored) length written on the flag line."""
@@ -205,11 +205,17 @@ def render_note_items(tick: int, mask: int, lens, tap, forced, lane_order=None) 
             lanes = sorted(lanes, key=lambda i: lane_order[i])
         for i in lanes:
             items.append([tick, "N", i, lens[i]])
+    flags = []
     if forced is not None:
-        items.append([tick, "N", FORCED, forced])
+        flags.append([tick, "N", FORCED, forced])
     if tap is not None:
-        items.append([tick, "N", TAP, tap])
-    return items
+        flags.append([tick, "N", TAP, tap])
+    if flag_pos and mask != 0:
+        # flag lines before / between the lane lines of a lane note (never in front of an open-note line)
+        for f, pos in zip(flags, flag_pos):
+            items.insert(pos % (len(items) + 1), f)
+        return items
+    return items + flags
 
 
 @st.composite
@@ -304,7 +310,7 @@ def merge_track_items(notes, phrases, tevents, sp_first: bool = False) -> list[l
     keyed = []
     for nt in notes:
         for k, it in enumerate(render_note_items(nt["tick"], nt["mask"], nt["lens"], nt["tap"],
-                                                 nt["forced"], nt.get("lane_order"))):
+                                                 nt["forced"], nt.get("lane_order"), nt.get("flag_pos"))):
             keyed.append((nt["tick"], 1 if not sp_first else 2, k, it))
     for k, (t, ln) in enumerate(phrases):
         keyed.append((t, 2 if not sp_first else 1, k, [t, "S", 2, ln]))
